@@ -311,6 +311,17 @@ func (d *duplexHTTPCall) makeRequest() {
 	defer verifYield(d.ctx, "request.finish")
 	verifYield(d.ctx, "request.enter")
 
+	if d.ctx.Done() != nil {
+		// net/http does not always notice a finished context by itself while the
+		// request body is open and idle: once RoundTrip has returned, the HTTP/2
+		// transport leaves watching the context to the goroutine that copies the
+		// request body, which can't while it's blocked reading our pipe; and the
+		// HTTP/1.1 transport, though it notices, returns from RoundTrip only
+		// when its write loop has - which is blocked in the same read. Make sure
+		// that a finished context ends the call even if the caller neither sends
+		// nor closes the request side again.
+		go d.watchContext()
+	}
 	// Once we send a message to the server, they send a message back and
 	// establish the receive side of the stream.
 	response, err := d.httpClient.Do(d.request)
@@ -327,14 +338,6 @@ func (d *duplexHTTPCall) makeRequest() {
 		return
 	}
 	d.response = response
-	if d.ctx.Done() != nil {
-		// Once RoundTrip has returned, net/http's HTTP/2 transport leaves
-		// watching the context to the goroutine that copies the request body -
-		// which can't while it's blocked reading our pipe. Make sure that a
-		// finished context ends the call even if the caller neither sends nor
-		// closes the request side again.
-		go d.watchContext()
-	}
 	if err := d.validateResponse(response); err != nil {
 		d.SetError(err)
 		return
@@ -360,6 +363,13 @@ func (d *duplexHTTPCall) watchContext() {
 		// ended it, in which case net/http is watching the context itself): the
 		// transport resets the stream and blocked reads return.
 		d.SetError(d.ctx.Err())
+		// A caller that ends a call by cancelling it need not call CloseResponse
+		// as well: release the response ourselves, once makeRequest is through
+		// with it.
+		<-d.responseReady
+		if d.response != nil {
+			_ = d.response.Body.Close()
+		}
 	case <-d.done:
 	}
 }
